@@ -23,6 +23,8 @@ SRC_STATE = {
 
 def src_state(fl: flavours.Flavour, mk=1):
     s = dict(SRC_STATE)
+    if fl.model_default_did(1) == fl.model_default_did(2):
+        s["dat"] = [1, 3, 3]
     s["did"] = [fl.model_default_did(d) for d in s["dat"]]
     s["meta"] = [[0] * mk for _ in range(3)]
     if fl.typed:
